@@ -23,8 +23,12 @@ func encWith(pk *paillier.PublicKey, m, r *big.Int) *big.Int {
 
 // aliceHarnessProve = ProveRangeAlice with alpha (the mask of s1 = e*m + alpha) given.
 func aliceHarnessProve(pk *paillier.PublicKey, c, NT, h1, h2, m, r, alpha *big.Int, label string) *mta.RangeProofAlice {
+	return aliceHarnessProveQ(tss.S256().Params().N, pk, c, NT, h1, h2, m, r, alpha, label)
+}
+
+// aliceHarnessProveQ: the same for the group order q of any curve.
+func aliceHarnessProveQ(q *big.Int, pk *paillier.PublicKey, c, NT, h1, h2, m, r, alpha *big.Int, label string) *mta.RangeProofAlice {
 	rand := newRand(label)
-	q := tss.S256().Params().N
 	q3 := new(big.Int).Exp(q, bi3, nil)
 	beta := common.GetRandomPositiveRelativelyPrimeInt(rand, pk.N)
 	gamma := common.GetRandomPositiveInt(rand, new(big.Int).Mul(q3, NT))
@@ -159,6 +163,45 @@ func (e *env) pairs() []pair {
 		return []pair{out[1], out[len(out)-2], out[2*n+2]} // (0,1), (4,3), (2,2)
 	}
 	return out
+}
+
+// curveOrderPhase runs BEFORE every other MtA case, one call after the other: first an honest range proof over
+// secp256k1 (the larger group order), then harness transcripts over edwards25519 at ITS bound q^3 (control),
+// q^3 + 1 and 8 q^3. Anything a process derives once from the first curve it sees would be too loose here.
+func (e *env) curveOrderPhase() {
+	if len(e.ps) < 2 {
+		return
+	}
+	pk, NT, h1, h2 := e.ps[0].pk, e.ps[1].NT, e.ps[1].h1, e.ps[1].h2
+	sec, ed := tss.S256(), tss.Edwards()
+	m := generic("order/alice/m", sec.Params().N)
+	c, r, err := pk.EncryptAndReturnRandomness(newRand("order/alice/enc"), m)
+	if err == nil {
+		if pf, err := mta.ProveRangeAlice(sec, pk, c, NT, h1, h2, m, r, newRand("order/alice/prove")); err == nil {
+			e.control("range-alice honest over secp256k1 (first MtA use in this process)", guard(func() (bool, error) { return pf.Verify(sec, pk, NT, h1, h2, c), nil }))
+		}
+	}
+	qe := ed.Params().N
+	qe3 := new(big.Int).Exp(qe, bi3, nil)
+	rr := genericUnit("order/alice/r", pk.N)
+	c0 := encWith(pk, bi(0), rr)
+	for _, sz := range []struct {
+		name string
+		s1   *big.Int
+		ok   bool
+	}{{"q^3", qe3, true}, {"q^3+1", new(big.Int).Add(qe3, bi1), false}, {"8q^3", new(big.Int).Lsh(qe3, 3), false}} {
+		pf := aliceHarnessProveQ(qe, pk, c0, NT, h1, h2, bi(0), rr, sz.s1, "order/alice/ed/"+sz.name)
+		res := guard(func() (bool, error) { return pf.Verify(ed, pk, NT, h1, h2, c0), nil })
+		if sz.ok {
+			e.control("range-alice s1 = q^3 over edwards25519 (harness transcript, after secp256k1 was used)", res)
+			continue
+		}
+		t := &task{family: "range-alice", canon: "range-alice/curve-order/secp256k1-then-ed25519/" + sz.name}
+		e.judge(t, "range-alice/s1-above-q3/"+sz.name+"/ed25519-after-secp256k1", "range-proof transcript over edwards25519 with s1 = "+sz.name+" (bound: that curve's q^3), verified after the process had used secp256k1", map[string]interface{}{"proof": aliceRec(pf)}, res)
+		for _, pv := range t.viol {
+			e.r.Violate(pv.key, pv.what, pv.rec)
+		}
+	}
 }
 
 func (e *env) mtaTasks() {
